@@ -50,6 +50,7 @@ def make_corpus(c, nflow, npar, nscen, seed_off=0, par_exec=0, features=None, pr
         scs = [render.gen_scenario(rng, p, "ok") for _ in range(2)] + slow_scenarios(rng, p)
         scs += render.fault_scenarios(rng, p)
         scs += render.hold_scenarios(rng, p)
+        scs += render.barrier_scenarios(rng, p)
         scs += [render.gen_scenario(rng, p, "mixed") for _ in range(nscen)]
         for i, sc in enumerate(scs):
             k += 1
@@ -77,7 +78,7 @@ def generate(c, cff, root, pk, mode="base", extra=()):
         text = (r.stdout + r.stderr)
         srcs = [f for f in os.listdir(d) if f.endswith(".go") and f != "reg.go" and not f.endswith("_gen.go")]
         missing = [f for f in srcs if not os.path.exists(os.path.join(d, f[:-3] + "_gen.go"))]
-        if "panic:" in text and "goroutine " in text:
+        if ("panic:" in text or "fatal error:" in text) and "goroutine " in text:
             problems.append((pkg, "crash", text[-2500:]))
         elif r.returncode != 0 or missing:
             problems.append((pkg, "rejected", text[-2500:]))
@@ -341,7 +342,7 @@ class GenLog:
         deleted = sorted(p for p in before if p not in after)
         diag = sorted({os.path.basename(m.group(1)) for m in re.finditer(r"([A-Za-z0-9_./-]+\.go):\d+:\d+: ", text)})
         ev = dict(ev="run", id=len(self.events) + 1, pkg=pkg, mode=mode, flags=" ".join(extra), selected=selected, outputs=outputs,
-                  expectok=expectok, rc=r.returncode, crashed=("panic:" in text and "goroutine " in text), diagfiles=diag,
+                  expectok=expectok, rc=r.returncode, crashed=(("panic:" in text or "fatal error:" in text) and "goroutine " in text), diagfiles=diag,
                   written=[[p, self.nhash(os.path.join(root, p))] for p in written], deleted=deleted, fresh=True,
                   typechecks="skipped", surviving=0, stderr=text[-600:])
         if r.returncode == 0 and typecheck:
@@ -414,7 +415,7 @@ def split_executions(trace, want_dir="flow", limit=None, seed=0, max_insts=6):
             continue        # the interleaving search grows quickly with the number of independent jobs
         lists, order = {}, []
         for e in x["evs"]:
-            if e["ev"] in ("over",):
+            if e["ev"] in ("over", "capacity"):
                 continue
             g = "env" if e["ev"] in ("cancel_begin", "cancel") else e["g"]
             if g not in lists:
